@@ -231,6 +231,9 @@ class EpisodeMonitor:
                 if (not s["is_async"]) and o["check"] and stored and not s["use_mem"] and \
                         (d is None or key not in d[0] or d[0][key][0] != o["would"]):
                     self.fail("C11", f"call {op}: the entry was judged stale and recomputed, but the fresh value is not in the cache afterwards")
+                # a refreshed entry is a NEW entry: its lifetime starts at the refresh
+                if o["check"] and stored and d is not None and key in d[0] and d[0][key][0] == o["would"] and d[0][key][2] >= 1000:
+                    self.fail("C11", f"call {op}: the entry was judged stale and replaced, but the fresh entry's age is {d[0][key][2]} ms (it inherited the birth time of the entry it replaced and will expire early)")
                 if (not stored) and d is not None and key in d[0] and d[0][key][0] == o["would"] and not o["check"]:
                     pid = "C10" if s["cache_if"] else "C09"
                     self.fail(pid, f"call {op}: a result that must not be cached (rejected / Err) is in the cache afterwards")
